@@ -8,6 +8,7 @@
 // known_findings.json are excluded by construction (see excluded() below) so that the campaign is not stopped by them.
 #include <fuzzer/FuzzedDataProvider.h>
 #include "vf/families.hpp"
+#include "vf/c11_preamble.hpp"
 
 namespace fam = vf::fam;
 using vf::Case; using vf::Op;
@@ -27,6 +28,7 @@ bool excluded(int f, int /*path*/, int kind, size_t pos, const fam::Bytes& img, 
     if (f == fam::F_CM && pos >= 8 && pos <= 12 && empty_image) return true;      // num_buckets / num_hashes of an empty image: a valid huge empty sketch
     if (f == fam::F_DENS && pos >= 8 && pos <= 11 && empty_image) return true;     // dimension of an empty image: a valid empty sketch of a huge dimension
     if ((f == fam::F_VO_I || f == fam::F_VO_S || f == fam::F_VOU || f == fam::F_EBPPS) && img.size() <= 8 && pos >= 4 && pos <= 7 && data.size() >= 8 && vf::ref_le32(data.data() + 4) > 65536) return true;  // empty image, huge k
+    if (f == fam::F_BLOOM && img.size() <= 24 && pos >= 16 && data.size() >= 20 && vf::ref_le32(data.data() + 16) > (1u << 20)) return true;  // empty image, larger bit-array length: valid image of a huge empty filter (allocated as its builder would)
     if ((f == fam::F_VO_I || f == fam::F_VO_S) && pos >= 4 && pos <= 7 && (img[0] & 0x3f) == 3 && vf::ref_le32(data.data() + 4) > 65536) return true;  // warm-up image, larger k: valid image of a huge sketch
   }
   return false;
@@ -71,12 +73,14 @@ extern "C" int LLVMFuzzerTestOneInput(const uint8_t* bytes, size_t size) {
   if (kind == 1) { if (img.empty()) return 0; pos = pos_raw % img.size(); data.resize(pos); }
   else if (kind == 2) {
     if (img.empty()) return 0;
-    size_t pre = std::min<size_t>(img.size(), 64);
+    size_t pre = preamble_len(f, img);   // the property quantifies corruption over the documented preamble only
+    if (pre == 0) return 0;
     pos = pos_raw % pre;
     if (data[pos] == val) val ^= 1;
     data[pos] = val;
     if (path == 2) path = 0;
   }
+  if (getenv("FZ_DEBUG")) fprintf(stderr, "FZ_DEBUG family=%s variant=%d image=%zu bytes kind=%d path=%d pos=%zu value=0x%02x (was 0x%02x) recipe:\n%s\n", fam::name(f), variant, img.size(), kind, path, pos, kind == 2 ? data[pos] : 0, kind == 2 ? img[pos] : 0, rc.text().c_str());
   if (excluded(f, path, kind, pos, img, data)) return 0;
   bool returned = false; std::string obs;
   fam::P r;
